@@ -41,3 +41,37 @@ ALL_VECS = FLOAT_VECS + INT_VECS
 BY_NAME = {v.name: v for v in ALL_VECS}
 
 XYZW = "xyzw"
+
+
+class MT:
+    """matrix / affine type: C columns of R rows, column vector type `col`."""
+
+    def __init__(self, name, C, R, t, mod, fname, col, simd=False, affine=False, lin=None):
+        self.name, self.C, self.R, self.t, self.mod, self.fname, self.col = name, C, R, t, mod, fname, col
+        self.simd, self.affine, self.lin = simd, affine, lin
+        self.w = {"f32": 32, "f64": 64}[t]
+        self.lname = name.lower()
+        self.N = C * R
+
+    def file(self, backend):
+        if self.simd:
+            return "src/%s/%s/%s.rs" % (self.mod, backend, self.fname)
+        return "src/%s/%s.rs" % (self.mod, self.fname)
+
+
+MATS = [
+    MT("Mat2", 2, 2, "f32", "f32", "mat2", "Vec2", simd=True),
+    MT("Mat3", 3, 3, "f32", "f32", "mat3", "Vec3"),
+    MT("Mat3A", 3, 3, "f32", "f32", "mat3a", "Vec3A", simd=True),
+    MT("Mat4", 4, 4, "f32", "f32", "mat4", "Vec4", simd=True),
+    MT("DMat2", 2, 2, "f64", "f64", "dmat2", "DVec2"),
+    MT("DMat3", 3, 3, "f64", "f64", "dmat3", "DVec3"),
+    MT("DMat4", 4, 4, "f64", "f64", "dmat4", "DVec4"),
+]
+AFFINES = [
+    MT("Affine2", 3, 2, "f32", "f32", "affine2", "Vec2", affine=True, lin="Mat2"),
+    MT("Affine3A", 4, 3, "f32", "f32", "affine3a", "Vec3A", affine=True, lin="Mat3A"),
+    MT("DAffine2", 3, 2, "f64", "f64", "daffine2", "DVec2", affine=True, lin="DMat2"),
+    MT("DAffine3", 4, 3, "f64", "f64", "daffine3", "DVec3", affine=True, lin="DMat3"),
+]
+MAT_BY_NAME = {m.name: m for m in MATS + AFFINES}
